@@ -10,14 +10,18 @@ const vPrintable = " !\"#$%&'()*+,-./0123456789:;<=>?@ABCDEFGHIJKLMNOPQRSTUVWXYZ
 
 // token-relevant alphabet: every byte class the lexer distinguishes, two word letters
 // (one of each case), a digit, a dot
-const vLexAlpha = " '\"`~^=!*+-/><&|()[],;aB1."
+const vLexAlpha = " '\"`~^=!*+-/><&|()[],;aB1.\t\n"
 
 // reduced class alphabets for longer inputs: one representative per class
 const vLexAlpha11 = " '\"<=!&(,a1"
 const vLexAlpha7 = " '<=(a1"
 
+func vIsBlank(c byte) bool {
+	return vOr(c == ' ', vOr(c == '\t', vOr(c == '\n', c == '\r')))
+}
+
 func vIsDelim(c byte) bool {
-	r := c == ' '
+	r := vIsBlank(c)
 	for i := 0; i < len(vDelims); i++ {
 		r = vOr(r, c == vDelims[i])
 	}
@@ -133,6 +137,16 @@ func VH_C16_A(n int, alpha int) {
 		}
 		vAssert(adj, "C16/T2w-word-maximal")
 		vCover("word")
+	}
+	// T5: nothing is dropped - every byte outside literals that is not a blank lies inside the
+	// extent of some token
+	for i := 0; i < n; i++ {
+		covered := false
+		for _, t := range toks {
+			s, e := vExtent(q, t)
+			covered = vOr(covered, vAnd(s <= i, i < e))
+		}
+		vAssert(vImplies(vAnd(outside[i], vNot(vIsBlank(q[i]))), covered), "C16/T5-byte-outside-every-token")
 	}
 	// T4: two-character operators outside literals are single tokens
 	for i := 0; i+1 < n; i++ {
